@@ -5,6 +5,7 @@
 From Coq Require Import List String Ascii NArith ZArith Bool Arith Lia.
 From Pegen Require Import Base.StrUtil Base.Values Grammar.Ast Grammar.Induction Grammar.Printer Analysis.Visitor Analysis.Nullable
   Runtime.Tokenizer Sem.Peg Gen.Gen Runtime.Exec Proofs.ExecInv Proofs.GenRefs.
+From Pegen Require Import Proofs.LocRun.
 Import ListNotations.
 Open Scope string_scope.
 
@@ -58,8 +59,12 @@ Fixpoint cfree (c : call) : bool :=
 Lemma cfree_wf c : cfree c = true -> call_wf c = true.
 Proof. induction c; cbn; auto; try discriminate. intros H. destruct c; cbn in *; auto; discriminate. Qed.
 
+(* the action of an alternative itself asks for LOCATIONS (python_generator: "LOCATIONS" in alt.action) *)
+Definition act_loc (act : option action) : bool :=
+  match act with Some ac => contains "LOCATIONS" (atext ac) | None => false end.
+(* the body of a loop helper: no cut among its items, and its own action (none, or `elem`) does not ask for LOCATIONS *)
 Definition no_cut_items (r : rhs) : bool :=
-  match r with Rhs _ [Alt items _] => forallb (fun n => negb (is_cut_item (ni_item n))) items | _ => true end.
+  match r with Rhs _ [Alt items act] => forallb (fun n => negb (is_cut_item (ni_item n))) items && negb (act_loc act) | _ => true end.
 Definition todo_wf (r : rule) : Prop :=
   top_rhs (rrhs r) = true /\ (is_loop_name (rname r) = true -> no_cut_items (rrhs r) = true).
 Definition WInv (st : gst) : Prop :=
@@ -295,7 +300,7 @@ Proof.
   destruct (Hsingle eq_refl) as (a & Ea). specialize (Hl eq_refl).
   assert (Hfl : flatten r = rrhs r) by (unfold flatten; rewrite L; reflexivity).
   rewrite Hfl in Ea, D. destruct (rrhs r) as [id alts0]. cbn [rhs_alts] in Ea, D. subst alts0.
-  destruct a as [items act]. cbn [no_cut_items] in Hl. destruct alts as [|x [|x2 l]]; cbn [map] in D; try discriminate.
+  destruct a as [items act]. cbn [no_cut_items] in Hl. apply andb_prop in Hl as [Hl _]. destruct alts as [|x [|x2 l]]; cbn [map] in D; try discriminate.
   injection D as D. cbn [forallb]. rewrite D. cbn [alt_items]. rewrite andb_true_r.
   apply negb_true_iff. apply not_true_is_false. intros He. apply existsb_exists in He as (n & Hn & Hc).
   rewrite forallb_forall in Hl. specialize (Hl n Hn). rewrite Hc in Hl. discriminate.
@@ -313,6 +318,99 @@ Proof.
     assert (HI0 : WInv t0) by (split; [exact Hrest|rewrite Ec; exact H2]).
     destruct (emit_rule_wf r t0 m t1 Hr HI0 F1) as (B1 & C1).
     cbn [forallb]. rewrite C1. cbn [andb]. exact (IH _ _ _ B1 F2).
+  - apply gret_spec in H as (-> & ->). reflexivity.
+Qed.
+(* ---- LOCATIONS: which emitted alternatives ask for them, and that their method captures the start (C15) ---- *)
+Lemma contains_loc_unreachable : contains "LOCATIONS" "UNREACHABLE" = false.
+Proof. reflexivity. Qed.
+Lemma contains_loc_empty : contains "LOCATIONS" "" = false.
+Proof. reflexivity. Qed.
+
+Lemma emit_alt_loc a is_loop is_gather st x st' :
+  emit_alt invalid_tbl iter_fields a is_loop is_gather st = (inl x, st') -> a_locations x = act_loc (alt_action a).
+Proof.
+  intros H. unfold emit_alt in H.
+  apply gbind_inv in H as (u0 & t0 & F0 & H).
+  apply gbind_inv in H as (u1 & t1 & F1 & H).
+  apply gbind_inv in H as (conjs & t2 & F2 & H).
+  apply gbind_inv in H as (locals & t3 & F3 & H).
+  apply gbind_inv in H as (final & t4 & F4 & H). apply gret_spec in H as (-> & ->).
+  cbn [a_locations]. unfold act_loc.
+  destruct (alt_action a) as [ac|]; [destruct (String.eqb (atext ac) "") eqn:Ee|].
+  - apply String.eqb_eq in Ee. rewrite Ee.
+    destruct (negb is_gather && has_invalid_alt invalid_tbl iter_fields a); reflexivity.
+  - reflexivity.
+  - destruct (negb is_gather && has_invalid_alt invalid_tbl iter_fields a); reflexivity.
+Qed.
+
+Lemma emit_alts_loc is_loop is_gather : forall l st xs st',
+  emit_alts invalid_tbl iter_fields l is_loop is_gather st = (inl xs, st') ->
+  map a_locations xs = map (fun a => act_loc (alt_action a)) l.
+Proof.
+  induction l as [|a l IH]; intros st xs st' H; cbn [emit_alts] in H.
+  - apply gret_spec in H as (-> & ->). reflexivity.
+  - apply gbind_inv in H as (x & t0 & F0 & H). apply gbind_inv in H as (xs0 & t1 & F1 & H). apply gret_spec in H as (-> & ->).
+    cbn [map]. rewrite (emit_alt_loc _ _ _ _ _ _ F0), (IH _ _ _ F1). reflexivity.
+Qed.
+
+Lemma existsb_via_map {A} (f : A -> bool) (l : list A) : existsb f l = existsb (fun b : bool => b) (map f l).
+Proof. induction l as [|a l IH]; cbn; [reflexivity|rewrite IH; reflexivity]. Qed.
+
+(* an alternative whose own action asks for LOCATIONS makes alts_uses_locations true *)
+Lemma own_loc_uses id alts : existsb (fun a => act_loc (alt_action a)) alts = true -> uses_loc_rhs (Rhs id alts) = true.
+Proof.
+  cbn [uses_loc_rhs]. induction alts as [|a alts IH]; cbn [existsb]; [discriminate|].
+  intros H. apply orb_prop in H as [H|H].
+  - destruct a as [items act]. cbn [alt_action] in H. cbn [uses_loc_alt]. unfold act_loc in H. rewrite H. reflexivity.
+  - rewrite (IH H). apply orb_true_r.
+Qed.
+
+Lemma uses_loc_flatten r : uses_loc_rhs (flatten r) = true -> uses_loc_rhs (rrhs r) = true.
+Proof.
+  intros H. unfold flatten in H. destruct (is_loop_name (rname r)); [exact H|].
+  destruct (rrhs r) as [id alts]. destruct alts as [|[[|[i0 nm0 ty0 it0] [|n2 items]] [act|]] [|a2 alts]]; try exact H;
+    destruct it0; try exact H.
+  cbn. cbn in H. rewrite H. reflexivity.
+Qed.
+
+Lemma emit_rule_loc r st m st' : todo_wf r ->
+  emit_rule invalid_tbl iter_fields rs0 nullable_rules left_rec leaders item_flag r st = (inl m, st') ->
+  meth_loc_ok m = true.
+Proof.
+  intros (Ht & Hl) H. unfold emit_rule in H.
+  apply gbind_inv in H as (u0 & t0 & F0 & H).
+  assert (S0 : is_loop_name (rname r) = true -> exists a, rhs_alts (flatten r) = [a]).
+  { destruct (is_loop_name (rname r)); [|discriminate].
+    destruct (rhs_alts (flatten r)) as [|a [|a2 l]]; try discriminate. intros _. exists a. reflexivity. }
+  apply gbind_inv in H as (alts & t1 & F1 & H). apply gret_spec in H as (-> & ->).
+  pose proof (emit_alts_loc _ _ _ _ _ _ F1) as D.
+  unfold meth_loc_ok. cbn [m_alts m_loop m_locations].
+  assert (E : existsb a_locations alts = existsb (fun a => act_loc (alt_action a)) (rhs_alts (flatten r))).
+  { rewrite (existsb_via_map a_locations alts), D, <- existsb_via_map. reflexivity. }
+  rewrite E.
+  destruct (existsb (fun a => act_loc (alt_action a)) (rhs_alts (flatten r))) eqn:X; [|reflexivity].
+  destruct (is_loop_name (rname r)) eqn:L.
+  - exfalso. destruct (S0 eq_refl) as (a & Ea). specialize (Hl eq_refl).
+    assert (Hfl : flatten r = rrhs r) by (unfold flatten; rewrite L; reflexivity).
+    rewrite Hfl in Ea, X. destruct (rrhs r) as [id alts0]. cbn [rhs_alts] in Ea, X. subst alts0.
+    destruct a as [items act]. cbn [no_cut_items] in Hl. apply andb_prop in Hl as [_ Hl].
+    cbn [existsb alt_action] in X. rewrite orb_false_r in X. rewrite X in Hl. discriminate.
+  - rewrite andb_true_r. apply uses_loc_flatten.
+    destruct (flatten r) as [id alts0]. cbn [rhs_alts] in X. apply own_loc_uses. exact X.
+Qed.
+
+Lemma emit_all_loc : forall fuel st ms st', WInv st ->
+  emit_all invalid_tbl iter_fields rs0 nullable_rules left_rec leaders item_flag fuel st = (inl ms, st') ->
+  forallb meth_loc_ok ms = true.
+Proof.
+  induction fuel as [|f IH]; intros st ms st' HI H; cbn [emit_all] in H; [discriminate|].
+  apply gbind_inv in H as (o & t0 & F0 & H). apply pop_todo_spec in F0. destruct o as [r|].
+  - destruct F0 as (Et & Ec).
+    apply gbind_inv in H as (m & t1 & F1 & H). apply gbind_inv in H as (ms0 & t2 & F2 & H). apply gret_spec in H as (-> & ->).
+    destruct HI as (H1 & H2). rewrite Et in H1. inversion H1 as [|? ? Hr Hrest]; subst.
+    assert (HI0 : WInv t0) by (split; [exact Hrest|rewrite Ec; exact H2]).
+    destruct (emit_rule_wf r t0 m t1 Hr HI0 F1) as (B1 & _).
+    cbn [forallb]. rewrite (emit_rule_loc r t0 m t1 Hr F1). cbn [andb]. exact (IH _ _ _ B1 F2).
   - apply gret_spec in H as (-> & ->). reflexivity.
 Qed.
 End EmitWf.
@@ -335,6 +433,21 @@ Proof.
   match type of H with (match ?e with _ => _ end) = _ => destruct e as [[ms|err] st] eqn:EA end; [|discriminate].
   injection H as <-. unfold ir_wf. cbn [i_meths].
   eapply emit_all_wf; [|exact EA]. split; cbn; [|constructor].
+  apply Forall_forall. intros r Hr. unfold grammar_shape_ok in Hok. rewrite forallb_forall in Hok. specialize (Hok r Hr).
+  apply andb_prop in Hok as [H1 H2]. split; [exact H1|]. intros Hl. apply loop_name_underscore in Hl. rewrite Hl in H2. discriminate.
+Qed.
+
+(* C15: in the module generated from EVERY grammar of that shape, a method one of whose alternatives asks for LOCATIONS
+   captures the start position at its entry and is not a loop helper -- the hypotheses of the interpreter-level theorem
+   (Proofs/LocRun.v) hold of every method of every generated parser. *)
+Theorem generated_loc_ok : forall invalid_tbl iter_fields pre suf file fb g an M,
+  grammar_shape_ok g = true ->
+  generate invalid_tbl iter_fields pre suf file fb g an = inl M -> forallb meth_loc_ok (i_meths M) = true.
+Proof.
+  intros tbl itf pre suf file fb g an M Hok H. unfold generate in H.
+  match type of H with (match ?e with _ => _ end) = _ => destruct e as [[ms|err] st] eqn:EA end; [|discriminate].
+  injection H as <-. cbn [i_meths].
+  eapply emit_all_loc; [|exact EA]. split; cbn; [|constructor].
   apply Forall_forall. intros r Hr. unfold grammar_shape_ok in Hok. rewrite forallb_forall in Hok. specialize (Hok r Hr).
   apply andb_prop in Hok as [H1 H2]. split; [exact H1|]. intros Hl. apply loop_name_underscore in Hl. rewrite Hl in H2. discriminate.
 Qed.
